@@ -8,6 +8,7 @@ import (
 	"go/scanner"
 	"go/token"
 	"os"
+	"path/filepath"
 	"strings"
 
 	"gsx/interp"
@@ -414,4 +415,216 @@ func nativeMeasure(checker, src string) (int, bool) {
 		return true
 	})
 	return res, found
+}
+
+func modelCategory(model map[string]interface{}, root string) string {
+	if tn, ok := model[root+"#type"].(string); ok {
+		switch {
+		case exprKinds[tn]:
+			return "expr"
+		case stmtKinds[tn]:
+			return "stmt"
+		}
+	}
+	if _, ok := model[root+".Decls#len"]; ok {
+		return "file"
+	}
+	if _, ok := model[root+".List#len"]; ok {
+		if _, isc := model[root+".List[0].Text?s"]; !isc {
+			return "block"
+		}
+	}
+	return "decl"
+}
+
+// replayRelational realises the inputs of a relational harness and lets the
+// native test compare the real checker's diagnostics (history / locality / repetition).
+func replayRelational(checker, mode string) func(rc *runCtx, h *harness, v *interp.Violation, file string) (bool, string) {
+	return func(rc *runCtx, h *harness, v *interp.Violation, file string) (bool, string) {
+		data, err := os.ReadFile(file)
+		if err != nil {
+			return false, err.Error()
+		}
+		var vf map[string]interface{}
+		json.Unmarshal(data, &vf)
+		model, _ := vf["model"].(map[string]interface{})
+		if model == nil {
+			return false, "no model"
+		}
+		pick := func(roots ...string) string {
+			for _, r := range roots {
+				for k := range model {
+					if strings.HasPrefix(k, r+"#") || strings.HasPrefix(k, r+".") {
+						return r
+					}
+				}
+			}
+			return roots[0]
+		}
+		var xs, ys []string
+		var notes []string
+		switch mode {
+		case "history":
+			xr, yr := pick("x", "file"), pick("y", "yfile")
+			xs, notes = realise(model, specView(), xr, modelCategory(model, xr), 4)
+			xs = append(xs, realiseCommentsRoot(model, xr)...)
+			var n2 []string
+			ys, n2 = realise(model, specView(), yr, modelCategory(model, yr), 4)
+			ys = append(ys, realiseCommentsRoot(model, yr)...)
+			notes = append(notes, n2...)
+		case "local":
+			xs, notes = realise(model, specView(), "d1", "decl", 3)
+			var n2 []string
+			ys, n2 = realise(model, specView(), "d2", "decl", 3)
+			notes = append(notes, n2...)
+		case "repeat":
+			xs, notes = realise(model, specView(), "file", "file", 6)
+			ys = []string{""}
+		}
+		if len(xs) == 0 || len(ys) == 0 {
+			return false, "not realised: " + strings.Join(notes, "; ")
+		}
+		files := map[string]string{}
+		n := 0
+		for _, x := range xs {
+			for _, y := range ys {
+				base := fmt.Sprintf("cand%03d", n)
+				files[base+"_x.go"] = x
+				if mode != "repeat" {
+					files[base+"_y.go"] = y
+				}
+				if mode == "local" {
+					files[base+"_xy.go"] = mergeSources(x, y)
+				}
+				n++
+			}
+		}
+		params := map[string]interface{}{}
+		for k, val := range model {
+			if strings.HasPrefix(k, "param.") {
+				name := strings.TrimPrefix(k, "param.")
+				name = strings.TrimSuffix(strings.TrimSuffix(strings.TrimSuffix(name, "?i"), "?b"), "?s")
+				params[name] = val
+			}
+		}
+		results, err := runRealisedFiles(checker, params, mode, files)
+		if err != nil {
+			return false, err.Error()
+		}
+		st := map[string]int{}
+		for _, r := range results {
+			st[r.Status]++
+			if r.Status == "DIFF" {
+				base := strings.TrimSuffix(filepath.Base(r.File), "_x.go")
+				keep := []string{files[base+"_x.go"]}
+				if s, ok := files[base+"_y.go"]; ok {
+					keep = append(keep, s)
+				}
+				vf["realised"] = keep
+				vf["checker"] = checker
+				out, _ := json.MarshalIndent(vf, "", " ")
+				os.WriteFile(file, out, 0o644)
+				return true, "real checker: " + r.Detail
+			}
+		}
+		return false, fmt.Sprintf("%d native comparisons without difference (%v)", len(results), st)
+	}
+}
+
+func realiseCommentsRoot(model map[string]interface{}, root string) []string {
+	if root == "x" || root == "file" {
+		return realiseComments(model)
+	}
+	// rename the keys of another root to the names realiseComments understands
+	m2 := map[string]interface{}{}
+	for k, v := range model {
+		switch {
+		case strings.HasPrefix(k, root+"."):
+			m2["x."+strings.TrimPrefix(k, root+".")] = v
+		case strings.HasPrefix(k, root+"#"):
+			m2["x#"+strings.TrimPrefix(k, root+"#")] = v
+		}
+	}
+	if root == "yfile" {
+		m3 := map[string]interface{}{}
+		for k, v := range m2 {
+			m3["file"+strings.TrimPrefix(k, "x")] = v
+		}
+		m2 = m3
+	}
+	return realiseComments(m2)
+}
+
+// mergeSources puts the declarations of two candidate files into one file.
+func mergeSources(a, b string) string {
+	body := func(s string) (imports, rest string) {
+		s = strings.TrimPrefix(strings.TrimSpace(s), "package cand")
+		for _, line := range strings.Split(s, "\n") {
+			if strings.HasPrefix(line, "import ") {
+				imports += line + "\n"
+			} else {
+				rest += line + "\n"
+			}
+		}
+		return
+	}
+	ia, ra := body(a)
+	ib, rb := body(b)
+	imps := ia
+	for _, l := range strings.Split(ib, "\n") {
+		if l != "" && !strings.Contains(ia, l) {
+			imps += l + "\n"
+		}
+	}
+	return "package cand\n\n" + imps + "\n" + ra + "\n" + rb
+}
+
+var apiSubjects = map[string][2]string{ // checker -> {kind, name}
+	"appendAssign": {"builtin", "append"}, "appendCombine": {"builtin", "append"}, "newDeref": {"builtin", "new"},
+	"badRegexp": {"pkg", "regexp"}, "regexpPattern": {"pkg", "regexp"}, "regexpSimplify": {"pkg", "regexp"},
+	"sortSlice": {"pkg", "sort"}, "filepathJoin": {"pkg", "path/filepath"}, "flagName": {"pkg", "flag"},
+}
+
+// replayAPI: realise the model; on each type-correct realisation the native
+// side runs the real checker and go/types and reports whether a diagnostic
+// sits on a line where the subject's name denotes a user declaration.
+func replayAPI(checker string) func(rc *runCtx, h *harness, v *interp.Violation, file string) (bool, string) {
+	return func(rc *runCtx, h *harness, v *interp.Violation, file string) (bool, string) {
+		data, err := os.ReadFile(file)
+		if err != nil {
+			return false, err.Error()
+		}
+		var vf map[string]interface{}
+		json.Unmarshal(data, &vf)
+		model, _ := vf["model"].(map[string]interface{})
+		if model == nil {
+			return false, "no model"
+		}
+		sources, notes := realise(model, specView(), "x", modelCategory(model, "x"), 40)
+		if len(sources) == 0 {
+			return false, "not realised: " + strings.Join(notes, "; ")
+		}
+		sub := apiSubjects[checker]
+		files := map[string]string{}
+		for i, s := range sources {
+			files[fmt.Sprintf("cand%03d_x.go", i)] = s
+		}
+		results, err := runRealisedFiles(checker, map[string]interface{}{"#kind": sub[0], "#name": sub[1]}, "api", files)
+		if err != nil {
+			return false, err.Error()
+		}
+		st := map[string]int{}
+		for _, r := range results {
+			st[r.Status]++
+			if r.Status == "DIFF" {
+				base := filepath.Base(r.File)
+				vf["realised"] = []string{files[base]}
+				vf["checker"] = checker
+				out, _ := json.MarshalIndent(vf, "", " ")
+				os.WriteFile(file, out, 0o644)
+				return true, "real checker + go/types: " + r.Detail + "\n" + files[base]
+			}
+		}
+		return false, fmt.Sprintf("%d realisations: no diagnostic on a namesake (%v)", len(results), st)
+	}
 }
